@@ -38,13 +38,14 @@ const k11Epoch = int64(1700000000)
 const (
 	k11KeyReentrant = "C11:reentrant-ack-lock-answered-before-log-write"
 	k11KeyLateReply = "C11:second-reply-after-ack-wait-timeout"
-	k11KeyC04Known  = "C04:no-wakeup-after-waiter-leaves"
+	k11SufNoWake    = "no-wakeup-after-waiter-leaves" // C04's finding; listed for C11 as C11:no-wakeup-after-waiter-leaves
 	k11KeyTwice     = "C11:write-error-inside-push-fails-ack-twice"
 	k11KeyRollback  = "C11:value-rollback-by-inverse-operation-inexact"
+	k11KeyNeverAof  = "C11:never-persist-flag-leaves-hold-awaiting-ack-for-ever"
 )
 
 type k11Op struct {
-	K     string `json:"k"` // lock unlock tick hold release | cluster: stall unstall demote
+	K     string `json:"k"`              // lock unlock tick hold release | cluster: stall unstall demote
 	F     int    `json:"f,omitempty"`    // cluster: follower index
 	Mode  string `json:"mode,omitempty"` // unstall: pass | negate | drop
 	C     int    `json:"c,omitempty"`
@@ -95,8 +96,8 @@ type k11Case struct {
 	Ops      []k11Op `json:"ops"`
 	// cluster only (c11_cluster_test.go)
 	NoGuard   bool `json:"noguard,omitempty"` // replay only: do not replace APPEND/SHIFT that meet an array value
-	Followers int `json:"followers,omitempty"`
-	AckMode   int `json:"ackmode,omitempty"` // 1 majority, 2 all
+	Followers int  `json:"followers,omitempty"`
+	AckMode   int  `json:"ackmode,omitempty"` // 1 majority, 2 all
 }
 
 func k11IdIdx(id [16]byte) int { return (int(id[0]) | int(id[1])<<8 | int(id[2])<<16) - 1 }
@@ -167,10 +168,10 @@ type k11Key struct {
 	staleWake bool
 	checkWake string // non-empty: a pending hold was removed (why); waiters must have been served
 	// per harness step
-	baseVal    *aValue
-	baseKnown  bool
-	stepApps   int
-	stepLeaves int // requests that left the wait queue in this step
+	baseVal      *aValue
+	baseKnown    bool
+	stepApps     int
+	stepLeaves   int // requests that left the wait queue in this step
 	stepRemovals int // holds removed in this step (each may have woken queued requests unobserved)
 }
 
@@ -203,25 +204,25 @@ func (k *k11Key) removeWaiter(r *k11Req) {
 }
 
 type k11Info struct {
-	ackReqs, ackSucceeded, ackFresh, ackFromQueue   int
-	ackFailedWrite, ackFailedData, ackTimedOut      int
-	ackWaitingLock, ackWaitingUnlock                int
-	failedWithValue, failedWithValueAndWaiter       int
-	valueRestoreChecked, valueRestoreSnapChecked    int
-	waitersServedAfterFailure, wakeChecks           int
-	staleWakeSkips, ambiguousValue                  int
-	succPreValueChecked, unlockAfterAck, reentrant  int
-	failResults                                     map[string]bool
-	valueKindsFailed                                map[string]bool
-	holdPhases, pendingMax, queuedBehindPending     int
-	dataFaultSucceeded, dataFaultFailed             int
-	knownReentrant, knownLateReply                  int
-	skippedDupQueued, excludedRollback              int
-	excludedBytesOnArray, keyFreedWithFailure       int
+	ackReqs, ackSucceeded, ackFresh, ackFromQueue  int
+	ackFailedWrite, ackFailedData, ackTimedOut     int
+	ackWaitingLock, ackWaitingUnlock               int
+	failedWithValue, failedWithValueAndWaiter      int
+	valueRestoreChecked, valueRestoreSnapChecked   int
+	waitersServedAfterFailure, wakeChecks          int
+	staleWakeSkips, ambiguousValue                 int
+	succPreValueChecked, unlockAfterAck, reentrant int
+	failResults                                    map[string]bool
+	valueKindsFailed                               map[string]bool
+	holdPhases, pendingMax, queuedBehindPending    int
+	dataFaultSucceeded, dataFaultFailed            int
+	knownReentrant, knownLateReply                 int
+	skippedDupQueued, excludedRollback             int
+	excludedBytesOnArray, keyFreedWithFailure      int
 	// cluster
 	ackFramesForwarded, ackFramesNegated, ackFramesDropped, ackFramesDelayed int
-	decidedByFollower, demotions, demotedPending, failedByFollower         int
-	followersChecked                                                       int
+	decidedByFollower, demotions, demotedPending, failedByFollower           int
+	followersChecked                                                         int
 }
 
 type k11Viol struct {
@@ -267,19 +268,21 @@ type k11Env struct {
 	info    k11Info
 	succ    map[string]int // (key,lockid) -> SUCCED replies to ack-required requests so far
 
-	held        bool
-	faultActive string // between release(fault) and repair
-	closedFile  *os.File
-	closedData  *os.File
-	inconcl     string
-	known       func(string) bool
-	noTypeGuard bool // replay of the malformed-array crash
+	held         bool
+	faultActive  string // between release(fault) and repair
+	closedFile   *os.File
+	closedData   *os.File
+	inconcl      string
+	neverAofKeys map[int]bool // keys that have seen a request with the never-persist flag (inherited by later holders)
+	known        func(string) bool
+	knownSuffix  func(string) bool
+	noTypeGuard  bool // replay of the malformed-array crash
 
 	// cluster hooks (nil on a single node)
-	ackGate func(r *k11Req) string // extra ordering check at SUCCED time
-	anyNegative func(r *k11Req) bool // a negative ack frame for r has been handed to the leader
-	stuck   func() bool            // true: no acknowledgement can complete without the harness acting
-	epoch   int64
+	ackGate     func(r *k11Req) string // extra ordering check at SUCCED time
+	anyNegative func(r *k11Req) bool   // a negative ack frame for r has been handed to the leader
+	stuck       func() bool            // true: no acknowledgement can complete without the harness acting
+	epoch       int64
 }
 
 func (e *k11Env) logf(format string, a ...interface{}) {
@@ -322,7 +325,9 @@ func k11NewEnv(c *k11Case, opts vInstOpts, inst *vInst) (*k11Env, error) {
 	}
 	e := &k11Env{c: c, inst: inst, now: k11Epoch, epoch: k11Epoch, keys: map[int]*k11Key{}, succ: map[string]int{}}
 	e.info.failResults, e.info.valueKindsFailed = map[string]bool{}, map[string]bool{}
+	e.neverAofKeys = map[int]bool{}
 	e.known = vIsKnown
+	e.knownSuffix = vIsKnownSuffix
 	e.noTypeGuard = c.NoGuard
 	d := inst.slock.GetOrNewDB(0)
 	d.currentTime, d.checkTimeoutTime, d.checkExpriedTime = e.now, e.now, e.now
@@ -454,6 +459,8 @@ func (e *k11Env) diskCheck(r *k11Req, what string) {
 		key := "C11:succed-before-log-write"
 		if what == "re-entrant" {
 			key = k11KeyReentrant
+		} else if r.Op.EF&0x0200 != 0 || e.neverAofKeys[r.Op.Key] {
+			key = k11KeyNeverAof
 		}
 		e.viol(key, "%s request #%d (%v) was answered SUCCED but the leader's append files hold %d LOCK record(s) of that key/LockId; %d acknowledged grant(s) need one each", what, r.Idx, r.Op, got, e.succ[id])
 	}
@@ -918,6 +925,9 @@ func (e *k11Env) send(op k11Op) {
 	if op.K == "lock" && op.Ack {
 		e.info.ackReqs++
 	}
+	if op.K == "lock" && op.EF&0x0200 != 0 {
+		e.neverAofKeys[op.Key] = true
+	}
 	e.reqs = append(e.reqs, r)
 	e.logf("#%d %v", r.Idx, op)
 	e.mu.Unlock()
@@ -1237,7 +1247,7 @@ func (e *k11Env) reconcile(where string) {
 		// queued requests are served after a pending hold was removed
 		if k.checkWake != "" {
 			if len(s.Waiters) > 0 {
-				if k.staleWake && e.known(k11KeyC04Known) {
+				if k.staleWake && e.knownSuffix(k11SufNoWake) {
 					e.info.staleWakeSkips++
 				} else {
 					e.info.wakeChecks++
@@ -1407,6 +1417,7 @@ func k11RunSingleOpts(c *k11Case, replay bool) (out k11Out) {
 	}
 	if replay {
 		e.known = func(string) bool { return false }
+		e.knownSuffix = e.known
 	}
 	defer func() {
 		if p := recover(); p != nil {
